@@ -28,6 +28,12 @@ CHECKS.update({
    text="Every session is run with 1, 2, 4 and 8 threads and with the parallel cut-offs at their defaults, at 0 and mixed (one child process per environment); each trace must be accepted by the same deterministic specification, which makes check outcomes, sizes, values and the least-term-named database equal across configurations."),
  "C13": dict(engine="EggAbs", technique=SESS_TECH, note=SESS_NOTE + "; delete family runs with seminaive=false", ref="6 (C13)",
    text="The subsumed flag is a row attribute of EggAbs: Matches ignores subsumed rows, check includes them, Close combines flags with OR when rows collide; model program P4 (subsume at top level and in rule heads, unions merging subsumed and non-subsumed rows in both orders, re-insertion) is explored exhaustively and replayed; sessions interleave subsume/delete/union/push/pop and the logged Enode.subsumed flags, derived relations and check outcomes must equal the specification's after every command, serial and parallel."),
+ "C08": dict(engine="EggAbs", technique=SESS_TECH + "; push/pop stack and a second e-graph slot (clone) in the trace specification", note=SESS_NOTE, ref="6 (C08)",
+   text="The trace specification keeps the stack of pushed states (database, declared rules, declared functions) and, after EGraph::clone, a second slot; pop must restore exactly the saved state, every command of the continuation is checked exactly against the specification (so P;push;Q;pop;R is indistinguishable from P;R), names declared inside the bracket must be declarable again, and the idle e-graph of a clone pair is dumped after every command on the other one and must not change."),
+ "C09": dict(engine="EggAbs", technique=SESS_TECH + "; injection of invalid commands and follow-up probes, in plain / term-encoding / proof mode", note=SESS_NOTE + "; mutation kinds from a fixed list, no arbitrary byte strings", ref="6 (C09)",
+   text="Invalid commands (wrong arity/sort, unbound names, unknown rulesets, ill-scoped rules, duplicate or ill-formed declarations, truncated text) are inserted at random positions of valid sessions on one EGraph; the specification classifies them as rejected: the engine must return an error value (a panic is recorded as data and reported), the logged database must equal the one before, probes that re-declare the rejected name must succeed, and the rest of the session must still be accepted."),
+ "C10": dict(engine="EggAbs", technique="TLC invariants SchedLaws / SatIsFixpoint on MC_EggAbs (model program P5) + " + SESS_TECH, note=SESS_NOTE + "; delete-free programs", ref="6 (C10)",
+   text="EggAbs.Sched is a transcription of run_schedule with RunReport.updated / can_stop (IterUpd computes `updated` as the engine does); TLC checks on every reachable database of model program P5 that law-related schedules give the same database, that a saturated schedule is a fixpoint and reports updated = false when re-run; the engine is bound to the interpreter by validating the database and the updated flag after every run-schedule command of nested repeat/saturate/seq/:until schedules, combined rulesets and rules declared late."),
 })
 
 NA = {
